@@ -396,6 +396,10 @@ def paths_of(stmts, ctx: Ctx):
                 else_p = [([["none"]] + p, st) for p, st in else_p]
             elif ctx.valparam and src == f"{ctx.valparam} is None":
                 then_p = [([["none"]] + p, st) for p, st in then_p]
+            elif ctx.valparam and any(isinstance(n, ast.Name) and n.id == ctx.valparam for n in ast.walk(s.test)):
+                # a branch decided by the assigned value itself (not by the state of the entity)
+                then_p = [([["valdep", ln]] + p, st) for p, st in then_p]
+                else_p = [([["valdep", ln]] + p, st) for p, st in else_p]
             alts = [then_p]
             if src not in INVARIANT_TRUE:
                 alts.append(else_p)
@@ -422,7 +426,7 @@ def paths_of(stmts, ctx: Ctx):
                         bad = f"return inside the loop at line {ln}"
                     if any(e[0] == "loop" for e in q):
                         bad = f"nested loops with events at line {ln}"
-                    q = [e for e in q if e[0] != "none"]
+                    q = [e for e in q if e[0] not in ("none", "valdep")]
                     if q not in bodies:
                         bodies.append(q)
                 if bad:
@@ -518,8 +522,12 @@ def writer_facts(repo: Path):
                         if isinstance(m, ast.Compare) and isinstance(m.left, ast.Name) and m.left.id == "key" and isinstance(m.ops[0], ast.In) \
                                 and isinstance(m.comparators[0], ast.List) and skip is None:
                             skip = [e.value for e in m.comparators[0].elts]
-                    if "value is None" not in ast.unparse(st.test):
-                        raise Refuse("write_attributes: the skip test no longer reads `key in [...] or value is None`")
+                    t = st.test
+                    shape_ok = (isinstance(t, ast.BoolOp) and isinstance(t.op, ast.Or) and len(t.values) == 2
+                                and ast.unparse(t.values[0]).startswith("key in [") and ast.unparse(t.values[1]) == "value is None")
+                    if not shape_ok:
+                        raise Refuse("write_attributes: the skip test is no longer exactly `key in [...] or value is None` "
+                                     f"(now: {ast.unparse(t)[:200]}): some values are never written")
             src = ast.unparse(n)
             if "getattr(entity, attr)" not in src or "entity_handle.attrs.create(key" not in src:
                 raise Refuse("write_attributes: loop no longer reads getattr(entity, attr) / writes attrs.create(key, ...)")
@@ -713,7 +721,12 @@ def extract(repo: Path):
         ctx.valparam = None
         normal = []
         for p, st in ps:
-            row = {"ev": [e for e in p if e[0] != "none"], "none": any(e[0] == "none" for e in p)}
+            row = {"ev": [e for e in p if e[0] not in ("none", "valdep")], "none": any(e[0] == "none" for e in p)}
+            vd = [e[1] for e in p if e[0] == "valdep"]
+            if kind == "set" and st != "raise" and vd and not row["none"] and not row["ev"]:
+                # the setter accepts a non-None value (ends normally) on a branch chosen by that value and neither stores
+                # nor persists anything: an accepted assignment that is silently dropped
+                row["ev"] = [["unsupported", f"accepts the value and does nothing (branch on the assigned value at line {vd[-1]})"]]
             if st != "raise" and row not in normal:
                 normal.append(row)
         funcs[fid] = {
